@@ -1160,3 +1160,639 @@ Proof.
   destruct (Forall2_build _ (jv o) _ _ G) as (xs & Hxs & Hvs).
   rewrite Hxs. cbn [bind]. eexists. split; [reflexivity|]. cbn [jv]. constructor. exact Hvs.
 Qed.
+
+(* ---- index views of the buffers *)
+Lemma frag_chars c : frag15 c = true -> chars_of None c = None.
+Proof.
+  induction c using content_ind'; cbn [frag15 chars_of]; intros F; try reflexivity; try discriminate; auto.
+  destruct shape as [|n [|m t]]; reflexivity.
+Qed.
+
+Lemma pairs_get_gen o : forall pre,
+  Forall2 (fun i ab => get (pre ++ o) i = Ok (fst ab) /\ get (pre ++ o) (i + 1) = Ok (snd ab))
+          (iota_nat (zlen pre) (length (pairs o))) (pairs o).
+Proof.
+  induction o as [|a o IH]; intros pre; [constructor|].
+  destruct o as [|b t]; [constructor|].
+  cbn [pairs length iota_nat]. constructor.
+  - cbn [fst snd]. split; [apply get_app_here|].
+    replace (pre ++ a :: b :: t) with ((pre ++ [a]) ++ b :: t) by (rewrite <- app_assoc; reflexivity).
+    replace (zlen pre + 1) with (zlen (pre ++ [a])) by (unfold zlen; rewrite app_length; cbn; lia).
+    apply get_app_here.
+  - specialize (IH (pre ++ [a])). rewrite <- app_assoc in IH. cbn [app] in IH.
+    replace (zlen (pre ++ [a])) with (zlen pre + 1) in IH by (unfold zlen; rewrite app_length; cbn; lia).
+    exact IH.
+Qed.
+
+Lemma pairs_get o : Forall2 (fun i ab => get o i = Ok (fst ab) /\ get o (i + 1) = Ok (snd ab))
+                            (iota (zlen (pairs o))) (pairs o).
+Proof.
+  pose proof (pairs_get_gen o []) as H. cbn [app] in H. unfold iota, zlen in *. rewrite Nat2Z.id. exact H.
+Qed.
+
+Lemma zip_get_gen {A B} (s : list A) : forall (e : list B) p1 p2, zlen p1 = zlen p2 ->
+  Forall2 (fun i ab => get (p1 ++ s) i = Ok (fst ab) /\ get (p2 ++ e) i = Ok (snd ab))
+          (iota_nat (zlen p1) (length (zip s e))) (zip s e).
+Proof.
+  induction s as [|a s IH]; intros e p1 p2 Hp; [constructor|].
+  destruct e as [|b e]; [constructor|].
+  cbn [zip length iota_nat]. constructor.
+  - cbn [fst snd]. split; [apply get_app_here | rewrite Hp; apply get_app_here].
+  - specialize (IH e (p1 ++ [a]) (p2 ++ [b])). rewrite <- !app_assoc in IH. cbn [app] in IH.
+    replace (zlen (p1 ++ [a])) with (zlen p1 + 1) in IH by (unfold zlen; rewrite app_length; cbn; lia).
+    apply IH. unfold zlen in *. rewrite !app_length. cbn. lia.
+Qed.
+
+Lemma zip_get {A B} (s : list A) (e : list B) :
+  Forall2 (fun i ab => get s i = Ok (fst ab) /\ get e i = Ok (snd ab)) (iota (zlen (zip s e))) (zip s e).
+Proof.
+  pose proof (zip_get_gen s e [] [] eq_refl) as H. cbn [app] in H. unfold iota, zlen in *. rewrite Nat2Z.id. exact H.
+Qed.
+
+Lemma zip_length_le {A B} (s : list A) : forall (e : list B), (length s <= length e)%nat -> length (zip s e) = length s.
+Proof. induction s; intros [|b e] L; cbn in *; try lia. rewrite IHs by lia. reflexivity. Qed.
+
+Lemma pairs_length o : o <> [] -> length (pairs o) = (length o - 1)%nat.
+Proof.
+  induction o as [|a o IH]; intros H; [congruence|]. destruct o as [|b t]; [reflexivity|].
+  change (pairs (a :: b :: t)) with ((a, b) :: pairs (b :: t)). cbn [length]. rewrite IH by discriminate. cbn [length]. lia.
+Qed.
+
+Lemma Forall2_zip_self {A B} (R : A -> B -> Prop) l1 l2 : Forall2 R l1 l2 ->
+  Forall2 (fun a ab => fst ab = a /\ R a (snd ab)) l1 (zip l1 l2).
+Proof. induction 1; cbn [zip]; constructor; auto. Qed.
+
+Lemma Forall2_idx {X Y} (G : Z -> X -> Prop) (F : X -> Y -> Prop) (Q : Z -> Y -> Prop) is xs ys :
+  Forall2 G is xs -> Forall2 F xs ys -> (forall i x y, G i x -> F x y -> Q i y) -> Forall2 Q is ys.
+Proof.
+  intros HG HF HQ. eapply Forall2_imp; [|eapply Forall2_comp; eassumption].
+  cbn beta. intros i y (x & Hg & Hf). eauto.
+Qed.
+
+Lemma zlen_iota n : 0 <= n -> zlen (iota n) = n.
+Proof. intros H. unfold zlen, iota. rewrite iota_nat_length. lia. Qed.
+
+Lemma range_0 n : range 0 n = iota n.
+Proof. unfold range, iota. rewrite Z.sub_0_r. reflexivity. Qed.
+
+Lemma skipn_skipn' {A} (l : list A) : forall x y, skipn x (skipn y l) = skipn (y + x) l.
+Proof.
+  induction l as [|a l IH]; intros x y; [rewrite !skipn_nil; reflexivity|].
+  destruct y; [reflexivity|]. cbn [skipn Nat.add]. apply IH.
+Qed.
+
+(* chunks of a RegularArray *)
+Lemma chunks_nat_spec {A} n (Hn : 0 <= n) count : forall (vs : list A) s,
+  Forall2 (fun i l => s <= i < s + Z.of_nat count /\ l = take n (drop ((i - s) * n) vs))
+          (iota_nat s count) (chunks_nat vs n count).
+Proof.
+  induction count as [|k IH]; intros vs s; [constructor|].
+  cbn [iota_nat chunks_nat]. constructor.
+  - split; [lia|]. rewrite Z.sub_diag. reflexivity.
+  - eapply Forall2_imp; [|apply (IH (drop n vs) (s + 1))]. cbn beta. intros i l (Hi & ->). split; [lia|].
+    unfold drop. rewrite skipn_skipn'. do 2 f_equal. nia.
+Qed.
+
+Lemma all_fix_Forall2 cs : forall vss,
+  (fix all (l : list content) : res (list (list value)) :=
+     match l with
+     | [] => Ok []
+     | x :: xs => do v <- to_list x; do vs <- all xs; Ok (v :: vs)
+     end) cs = Ok vss -> Forall2 (fun c vs => to_list c = Ok vs) cs vss.
+Proof.
+  induction cs as [|c cs IH]; intros vss H.
+  - injection H as <-. constructor.
+  - inv_bind H. inv_bind H. injection H as <-. constructor; auto.
+Qed.
+
+Lemma frag_all_Forall (f : content -> bool) cs :
+  (fix all (l : list content) : bool := match l with [] => true | x :: xs => f x && all xs end) cs = true ->
+  Forall (fun c => f c = true) cs.
+Proof.
+  induction cs as [|c cs IH]; intros H; [constructor|]. apply andb_true_iff in H. destruct H. constructor; auto.
+Qed.
+
+Lemma zip_map_jv o ks vs :
+  map (fun kv : name * value => match kv with (k, x) => (k, jv o x) end) (zip ks vs) = zip ks (map (jv o) vs).
+Proof. revert vs. induction ks as [|k ks IH]; intros [|v vs]; cbn; try reflexivity. rewrite IH. reflexivity. Qed.
+
+(* one row of a RecordArray *)
+Lemma fields_row o i cs : forall vss rowv keys,
+  Forall2 (fun c vs => forall v, get vs i = Ok v -> item_ok o c i v) cs vss ->
+  mapM (fun col => get col i) vss = Ok rowv -> length keys = length cs ->
+  exists body, fields_ev (fun x => item o None x i) cs keys = Ok body /\
+               ev_kvs body (zip keys (map (jv o) rowv)).
+Proof.
+  induction cs as [|c cs IH]; intros vss rowv keys HF HM HL; inversion HF; subst.
+  - cbn in HM. injection HM as <-. destruct keys; [|discriminate]. exists []. split; [reflexivity | constructor].
+  - cbn [mapM] in HM. inv_bind HM. inv_bind HM. injection HM as <-.
+    destruct keys as [|k keys]; [discriminate|]. cbn [length] in HL.
+    destruct (H1 _ E) as (e & He & Hv).
+    destruct (IH _ _ keys H3 E0 ltac:(lia)) as (body & Hb & Hk).
+    exists (EKey k :: e ++ body). split; [cbn [fields_ev]; rewrite He, Hb; reflexivity|].
+    cbn [map zip]. constructor; assumption.
+Qed.
+
+Lemma take_zlen {A} (l : list A) n : 0 <= n <= zlen l -> zlen (take n l) = n.
+Proof. intros H. unfold zlen, take in *. rewrite firstn_length_le by lia. lia. Qed.
+
+Lemma iota_take n m : 0 <= n <= m -> iota n = take n (iota m).
+Proof. intros H. unfold iota, take. rewrite iota_nat_firstn by lia. reflexivity. Qed.
+
+Lemma get_In {A} (l : list A) i x : get l i = Ok x -> In x l.
+Proof.
+  unfold get. destruct (i <? 0); [discriminate|]. destruct (nth_error l (Z.to_nat i)) eqn:E; [|discriminate].
+  intros H. injection H as <-. eapply nth_error_In; exact E.
+Qed.
+
+Lemma Forall2_diag {A} (R : A -> A -> Prop) l : (forall x, R x x) -> Forall2 R l l.
+Proof. intros H. induction l; constructor; auto. Qed.
+
+Lemma Forall2_Forall_l {A B} (P : A -> Prop) (R : A -> B -> Prop) l l' :
+  Forall P l -> Forall2 R l l' -> Forall2 (fun x y => P x /\ R x y) l l'.
+Proof. intros HP HR. induction HR; inversion HP; subst; constructor; auto. Qed.
+
+Lemma zlen_map {A B} (f : A -> B) l : zlen (map f l) = zlen l.
+Proof. unfold zlen. rewrite map_length. reflexivity. Qed.
+
+Lemma tuple_keys_length n : length (tuple_keys n) = n.
+Proof. unfold tuple_keys. rewrite map_length. unfold iota. rewrite iota_nat_length. lia. Qed.
+
+Lemma item_ok_lift o c c' (i j : Z) v : item o None c' i = item o None c j -> item_ok o c j v -> item_ok o c' i v.
+Proof. intros E (e & He & Hv). exists e. split; [rewrite E; exact He | exact Hv]. Qed.
+
+Lemma item_ok_null o c i : item o None c i = Ok [ENull] -> item_ok o c i VNone.
+Proof. intros E. exists [ENull]. split; [exact E | constructor]. Qed.
+
+Lemma item_spec o c : frag15 c = true -> u64ok c = true -> forall vs, to_list c = Ok vs ->
+  clen c = zlen vs /\ Forall2 (item_ok o c) (iota (zlen vs)) vs.
+Proof.
+  induction c as [dt shape data| |w offs c IHc|w ss se c IHc|c size zl IHc|w ix c IHc|w ix c IHc|m vw c IHc
+                  |m vw lsb n c IHc|c IHc|w tags ix cs IHcs|cs ks n IHcs|arr rn c IHc] using content_ind';
+    intros F U vs T.
+  - (* Numpy, 1-d *)
+    destruct shape as [|n [|m t]]; try discriminate F.
+    cbn [to_list existsb orb] in T. rewrite orb_false_r in T.
+    destruct (n <? 0) eqn:En; [discriminate|].
+    cbn [prodZ fold_right] in T. rewrite Z.mul_1_r in T.
+    destruct (zlen data <? n) eqn:Ed; [discriminate|]. cbn [nest bind] in T. injection T as <-.
+    rewrite zlen_map, take_zlen by lia. split; [reflexivity|].
+    apply Forall2_map_r. pose proof (get_iota data) as G.
+    rewrite (iota_take n (zlen data)) by lia. unfold take at 1 2.
+    eapply Forall2_imp; [|apply Forall2_firstn; exact G]. cbn beta. intros i d Hg.
+    exists [scalar_ev o dt d]. split.
+    + cbn [item prodZ fold_right]. rewrite !Z.mul_1_r. rewrite (slice_one _ _ _ Hg). reflexivity.
+    + apply scalar_ev_val. intros ->. cbn [u64ok] in U. rewrite forallb_forall in U. apply U. eapply get_In; exact Hg.
+  - (* Empty *) injection T as <-. split; [reflexivity | constructor].
+  - (* ListOffset *)
+    cbn [frag15 u64ok] in F, U. cbn [to_list] in T. inv_bind T. rename x into vs'.
+    destruct (IHc F U _ E) as (Hlen & HF).
+    destruct (cut vs' offs) as [ls|] eqn:Ec; [|discriminate]. cbn [rmap] in T. injection T as <-.
+    unfold cut in Ec. destruct offs as [|o0 offs']; [discriminate|]. set (offs := o0 :: offs') in *.
+    apply mapM_Forall2 in Ec. pose proof (Forall2_len _ _ _ Ec) as Hl.
+    assert (Hz : zlen ls = zlen (pairs offs)) by (unfold zlen; lia).
+    rewrite zlen_map. split.
+    + cbn [clen]. rewrite Hz. unfold zlen. rewrite pairs_length by (subst offs; discriminate). subst offs. cbn [length]. lia.
+    + apply Forall2_map_r. rewrite Hz.
+      eapply Forall2_idx; [apply pairs_get | exact Ec|]. cbn beta. intros i [a b] l (G1 & G2) Hc. cbn [fst snd] in *.
+      destruct (range_items o c vs' a b l (frag_chars c F) HF Hc) as (e & He & Hv).
+      exists e. split; [|exact Hv]. cbn [item]. rewrite G1, G2. exact He.
+  - (* ListArray *)
+    cbn [frag15 u64ok] in F, U. cbn [to_list] in T. inv_bind T. rename x into vs'.
+    destruct (IHc F U _ E) as (Hlen & HF).
+    destruct (cut2 vs' ss se) as [ls|] eqn:Ec; [|discriminate]. cbn [rmap] in T. injection T as <-.
+    unfold cut2 in Ec. destruct (zlen se <? zlen ss) eqn:Es; [discriminate|].
+    apply mapM_Forall2 in Ec. pose proof (Forall2_len _ _ _ Ec) as Hl.
+    assert (Hz : zlen ls = zlen (zip ss se)) by (unfold zlen; lia).
+    rewrite zlen_map. split.
+    + cbn [clen]. rewrite Hz. unfold zlen in *. rewrite zip_length_le by lia. reflexivity.
+    + apply Forall2_map_r. rewrite Hz.
+      eapply Forall2_idx; [apply zip_get | exact Ec|]. cbn beta. intros i [a b] l (G1 & G2) Hc. cbn [fst snd] in *.
+      destruct (range_items o c vs' a b l (frag_chars c F) HF Hc) as (e & He & Hv).
+      exists e. split; [|exact Hv]. cbn [item]. rewrite G1, G2. exact He.
+  - (* RegularArray *)
+    cbn [frag15 u64ok] in F, U. cbn [to_list] in T. inv_bind T. rename x into vs'.
+    destruct (IHc F U _ E) as (Hlen & HF).
+    destruct (chunks vs' size zl) as [ls|] eqn:Ec; [|discriminate]. cbn [rmap] in T. injection T as <-.
+    unfold chunks in Ec. destruct (size <? 0) eqn:Es; [discriminate|].
+    rewrite zlen_map. destruct (size =? 0) eqn:E0.
+    + destruct (zl <? 0) eqn:Ez; [discriminate|]. injection Ec as <-.
+      rewrite zlen_map, zlen_iota by lia. split; [cbn [clen]; rewrite E0; reflexivity|].
+      apply Forall2_map_r, Forall2_map_r. apply Forall2_diag. intros i.
+      assert (Hc : cut1 vs' (i * size, (i + 1) * size) = Ok []).
+      { unfold cut1. replace (i * size =? (i + 1) * size) with true by nia. reflexivity. }
+      destruct (range_items o c vs' _ _ _ (frag_chars c F) HF Hc) as (e & He & Hv).
+      exists e. split; [exact He | exact Hv].
+    + injection Ec as <-. set (count := Z.to_nat (zlen vs' / size)).
+      pose proof (chunks_nat_spec size ltac:(lia) count vs' 0) as CS.
+      pose proof (Forall2_len _ _ _ CS) as CL. rewrite iota_nat_length in CL.
+      assert (Hq : 0 <= zlen vs' / size) by (apply Z.div_pos; unfold zlen; lia).
+      assert (Hz : zlen (chunks_nat vs' size count) = zlen vs' / size) by (unfold zlen at 1; rewrite <- CL; subst count; lia).
+      rewrite Hz. split; [cbn [clen]; rewrite E0, Hlen; reflexivity|].
+      apply Forall2_map_r. unfold iota. fold count.
+      eapply Forall2_imp; [|exact CS]. cbn beta. intros i l (Hi & ->).
+      assert (Hc : cut1 vs' (i * size, (i + 1) * size) = Ok (take size (drop ((i - 0) * size) vs'))).
+      { unfold cut1. replace (i * size =? (i + 1) * size) with false by nia.
+        unfold slice. pose proof (Z.mul_div_le (zlen vs') size ltac:(lia)).
+        replace ((0 <=? i * size) && (i * size <=? (i + 1) * size) && ((i + 1) * size <=? zlen vs')) with true by (subst count; nia).
+        do 3 f_equal; lia. }
+      destruct (range_items o c vs' _ _ _ (frag_chars c F) HF Hc) as (e & He & Hv).
+      exists e. split; [exact He | exact Hv].
+  - (* IndexedArray *)
+    cbn [frag15 u64ok] in F, U. cbn [to_list] in T. inv_bind T. rename x into vs'.
+    destruct (IHc F U _ E) as (Hlen & HF).
+    apply mapM_Forall2 in T. pose proof (Forall2_len _ _ _ T) as Hl.
+    assert (Hz : zlen vs = zlen ix) by (unfold zlen; lia). split; [cbn [clen]; lia|]. rewrite Hz.
+    eapply Forall2_idx; [apply get_iota | exact T|]. cbn beta. intros i j v G Hv.
+    eapply item_ok_lift; [|eapply (Forall2_get _ _ _ _ HF); exact Hv]. cbn [item]. rewrite G. reflexivity.
+  - (* IndexedOptionArray *)
+    cbn [frag15 u64ok] in F, U. cbn [to_list] in T. inv_bind T. rename x into vs'.
+    destruct (IHc F U _ E) as (Hlen & HF).
+    apply mapM_Forall2 in T. pose proof (Forall2_len _ _ _ T) as Hl.
+    assert (Hz : zlen vs = zlen ix) by (unfold zlen; lia). split; [cbn [clen]; lia|]. rewrite Hz.
+    eapply Forall2_idx; [apply get_iota | exact T|]. cbn beta. intros i j v G Hv.
+    unfold pick_opt in Hv. destruct (j <? 0) eqn:Ej.
+    + replace (0 <=? j) with false in Hv by lia. injection Hv as <-.
+      apply item_ok_null. cbn [item]. rewrite G. cbn [bind]. rewrite Ej. reflexivity.
+    + replace (0 <=? j) with true in Hv by lia.
+      eapply item_ok_lift; [|eapply (Forall2_get _ _ _ _ HF); exact Hv]. cbn [item]. rewrite G. cbn [bind]. rewrite Ej. reflexivity.
+  - (* ByteMaskedArray *)
+    cbn [frag15 u64ok] in F, U. cbn [to_list] in T. inv_bind T. rename x into vs'.
+    destruct (IHc F U _ E) as (Hlen & HF).
+    apply mapM_Forall2 in T. pose proof (Forall2_len _ _ _ T) as Hl.
+    assert (Hzip : length (zip (iota (zlen m)) m) = length m).
+    { rewrite zip_length_le; unfold iota; rewrite iota_nat_length; unfold zlen; lia. }
+    assert (Hz : zlen vs = zlen m) by (unfold zlen; lia). split; [cbn [clen]; lia|]. rewrite Hz.
+    eapply Forall2_idx; [exact (Forall2_zip_self _ _ _ (get_iota m)) | exact T|]. cbn beta.
+    intros i [i' b] v (Ei & G) Hv. cbn [fst snd] in *. subst i'.
+    unfold pick_opt in Hv. destruct (Bool.eqb (negb (b =? 0)) vw) eqn:Eb.
+    + eapply item_ok_lift; [|eapply (Forall2_get _ _ _ _ HF); exact Hv]. cbn [item]. rewrite G. cbn [bind]. rewrite Eb. reflexivity.
+    + injection Hv as <-. apply item_ok_null. cbn [item]. rewrite G. cbn [bind]. rewrite Eb. reflexivity.
+  - (* BitMaskedArray *)
+    cbn [frag15 u64ok] in F, U. cbn [to_list] in T. inv_bind T. rename x into vs'.
+    destruct (IHc F U _ E) as (Hlen & HF).
+    destruct (n <? 0) eqn:En; [discriminate|].
+    apply mapM_Forall2 in T. pose proof (Forall2_len _ _ _ T) as Hl.
+    assert (Hz : zlen vs = n) by (unfold zlen; rewrite <- Hl; unfold iota; rewrite iota_nat_length; lia).
+    split; [cbn [clen]; lia|]. rewrite Hz.
+    eapply Forall2_imp; [|exact T]. cbn beta. intros i v Hv. inv_bind Hv. rename x into b.
+    unfold pick_opt in Hv. destruct (Bool.eqb b vw) eqn:Eb.
+    + eapply item_ok_lift; [|eapply (Forall2_get _ _ _ _ HF); exact Hv]. cbn [item]. rewrite E0. cbn [bind]. rewrite Eb. reflexivity.
+    + injection Hv as <-. apply item_ok_null. cbn [item]. rewrite E0. cbn [bind]. rewrite Eb. reflexivity.
+  - (* UnmaskedArray *)
+    cbn [frag15 u64ok] in F, U. cbn [to_list] in T.
+    destruct (IHc F U _ T) as (Hlen & HF). split; [exact Hlen|].
+    eapply Forall2_imp; [|exact HF]. cbn beta. intros i v H. eapply item_ok_lift; [|exact H]. reflexivity.
+  - discriminate F.
+  - (* RecordArray *)
+    cbn [frag15 u64ok] in F, U. apply frag_all_Forall in F. apply frag_all_Forall in U.
+    cbn [to_list] in T. inv_bind T. rename x into vss. apply all_fix_Forall2 in E.
+    destruct (n <? 0) eqn:En; [discriminate|].
+    apply mapM_Forall2 in T. pose proof (Forall2_len _ _ _ T) as Hl.
+    assert (Hz : zlen vs = n) by (unfold zlen; rewrite <- Hl; unfold iota; rewrite iota_nat_length; lia).
+    split; [cbn [clen]; lia|]. rewrite Hz.
+    eapply Forall2_imp; [|exact T]. cbn beta. intros i v Hrow.
+    unfold row in Hrow. inv_bind Hrow. rename x into rowv.
+    assert (HC : Forall2 (fun c vs0 => forall v0, get vs0 i = Ok v0 -> item_ok o c i v0) cs vss).
+    { assert (A3 : Forall (fun c => frag15 c = true /\ u64ok c = true /\
+                      (frag15 c = true -> u64ok c = true -> forall vs0, to_list c = Ok vs0 ->
+                         clen c = zlen vs0 /\ Forall2 (item_ok o c) (iota (zlen vs0)) vs0)) cs).
+      { rewrite Forall_forall in *. intros c Hc. auto. }
+      eapply Forall2_imp; [|eapply Forall2_Forall_l; [exact A3 | exact E]]. cbn beta.
+      intros c vs0 ((Fc & Uc & IH) & Tc) v0 Hg. destruct (IH Fc Uc _ Tc) as (_ & HF0).
+      eapply (Forall2_get _ _ _ _ HF0); exact Hg. }
+    pose proof (Forall2_len _ _ _ E) as Lcs.
+    pose proof (Forall2_len _ _ _ (proj1 (mapM_Forall2 _ _ _) E0)) as Lrow.
+    destruct ks as [k|].
+    + destruct (Nat.eqb (length k) (length rowv)) eqn:Ek; [|discriminate]. apply Nat.eqb_eq in Ek.
+      injection Hrow as <-.
+      assert (Hkl : length k = length cs) by lia.
+      destruct (fields_row o i cs vss rowv k HC E0 Hkl) as (body & Hb & Hk).
+      exists (ESO :: body ++ [EEO]). split; [cbn [item]; rewrite Hb; reflexivity|].
+      cbn [jv]. rewrite zip_map_jv. constructor. exact Hk.
+    + injection Hrow as <-.
+      destruct (fields_row o i cs vss rowv (tuple_keys (length cs)) HC E0 (tuple_keys_length _)) as (body & Hb & Hk).
+      exists (ESO :: body ++ [EEO]). split; [cbn [item]; rewrite Hb; reflexivity|].
+      cbn [jv]. replace (length rowv) with (length cs) by lia. constructor. exact Hk.
+  - discriminate F.
+Qed.
+
+(** (b) on the fragment [frag15]: the events of to_json fold back into to_list, up to the documented rendering [jv] *)
+Theorem tojson_value_frag o c vs : frag15 c = true -> u64ok c = true -> to_list c = Ok vs ->
+  exists evs, tojson_events o c = Ok evs /\ json_value evs = Ok (VList (map (jv o) vs), []).
+Proof.
+  intros F U T. destruct (item_spec o c F U vs T) as (Hlen & HF).
+  unfold tojson_events. rewrite (frag_chars c F). unfold range_events. rewrite range_0, Hlen.
+  destruct (Forall2_build _ (jv o) _ _ HF) as (xs & Hxs & Hvs).
+  rewrite Hxs. cbn [bind]. eexists. split; [reflexivity|].
+  apply json_value_of. constructor. exact Hvs.
+Qed.
+
+(* ================================================================== examples (non-vacuity) *)
+Definition ex_opts := {| nan_s := Some [78; 97; 78]; inf_s := None; minf_s := None |}.
+
+(* an object with an escaped key and a string with a control byte and a byte above 0x7f, then 3.0, null, true *)
+Definition ex_events : list ev :=
+  [ESA; ESO; EKey [97; 34]; EInt (-12); EKey [98]; EStr [0; 200; 10]; EEO; EReal (RZ 3); ENull; EBool true; EEA].
+
+Example parse_render_ex :
+  wf ex_events = true /\ printable ex_events = true /\ parse (render ex_events) = Ok (ex_events, []).
+Proof. vm_compute. auto. Qed.
+
+(* a record array [{x: 1.0, y: [1, -20]}, {x: nan, y: [300]}] behind an option node *)
+Definition ex_layout : content :=
+  IndexedOption I64 [1; -1; 0]
+    (Record [Numpy DFloat64 [2] [DZ 1; DNaN];
+             ListOffset I64 [0; 2; 3] (Numpy DInt64 [3] [DZ 1; DZ (-20); DZ 300])]
+            (Some [[120]; [121]]) 2).
+
+Example events_wellformed_ex :
+  exists evs, tojson_events ex_opts ex_layout = Ok evs /\ wf evs = true /\ evs <> [].
+Proof. eexists. split; [vm_compute; reflexivity | split; [vm_compute; reflexivity | discriminate]]. Qed.
+
+Example tojson_value_ex :
+  frag15 ex_layout = true /\ u64ok ex_layout = true /\
+  to_list ex_layout = Ok [VRec [([120], VNum DNaN); ([121], VList [VNum (DZ 300)])]; VNone;
+                          VRec [([120], VNum (DZ 1)); ([121], VList [VNum (DZ 1); VNum (DZ (-20))])]].
+Proof. vm_compute. auto. Qed.
+
+(* the uint64 cast: the value is NOT preserved above 2^63-1 (known finding c15-uint64-wraps) *)
+Example tojson_value_refuted_uint64 :
+  let c := Numpy DUInt64 [1] [DZ 18446744073709551615] in
+  to_list c = Ok [VNum (DZ 18446744073709551615)] /\
+  (do e <- tojson_events ex_opts c; json_value e) = Ok (VList [VNum (DZ (-1))], []).
+Proof. vm_compute. auto. Qed.
+
+(* three documents, two separators *)
+Example concat_docs_ex :
+  let dws := [([ESA; EInt 1; EEA], [32]); ([EInt 2], [10; 32]); ([ESO; EEO], [])] in
+  Forall doc_ok dws /\ seps_ok dws /\
+  do_parse ex_opts ([32] ++ docs_text dws) = JDocs [[ESA; EInt 1; EEA]; [EInt 2]; [ESO; EEO]].
+Proof.
+  cbn zeta. split; [|split].
+  - repeat constructor.
+  - cbn. repeat split; discriminate.
+  - vm_compute. reflexivity.
+Qed.
+
+(* ================================================================== (e) truncation: extension stability of the reader *)
+
+Lemma skip_ws_ext q s : skip_ws q <> [] -> skip_ws (q ++ s) = skip_ws q ++ s.
+Proof.
+  induction q as [|c q IH]; intros H; [cbn in H; congruence|].
+  cbn [app skip_ws] in *. destruct (is_ws c); [apply IH; exact H | reflexivity].
+Qed.
+
+Lemma lit_ext xs e : forall q e' r s, lit xs e q = POk e' r -> lit xs e (q ++ s) = POk e' (r ++ s).
+Proof.
+  induction xs as [|x xs IH]; intros q e' r s H; cbn [lit] in *.
+  - injection H as <- <-. reflexivity.
+  - destruct q as [|c q]; [discriminate|]. cbn [app]. destruct (c =? x); [apply IH; exact H | discriminate].
+Qed.
+
+Lemma read_digits_ext q : forall a c v n r s, read_digits q a c = (v, n, r) -> r <> [] ->
+  read_digits (q ++ s) a c = (v, n, r ++ s).
+Proof.
+  induction q as [|d q IH]; intros a c v n r s H Hr; cbn [read_digits app] in *.
+  - injection H as <- <- <-. congruence.
+  - destruct (is_digit d); [apply IH; assumption|]. injection H as <- <- <-. reflexivity.
+Qed.
+
+Ltac lex_step IH s :=
+  match goal with
+  | H : SFail _ = SOk _ _ |- _ => discriminate H
+  | H : SOk _ _ = SOk _ _ |- _ => injection H as <- <-; reflexivity
+  | H : context [if ?b then _ else _] |- _ => destruct b eqn:?
+  | H : context [match ?l with [] => _ | _ :: _ => _ end] |- _ => is_var l; destruct l; cbn [app]
+  | H : context [match hex4 ?a ?b ?c ?d with _ => _ end] |- _ => destruct (hex4 a b c d) eqn:?
+  | H : spush ?pre (lex_str ?q) = SOk _ _ |- _ =>
+      let E := fresh "E" in let s0 := fresh "s0" in let r0 := fresh "r0" in let X := fresh "X" in
+      destruct (lex_str q) as [s0 r0|] eqn:E; cbn [spush] in H; [|discriminate H];
+      injection H as <- <-;
+      assert (X : lex_str (q ++ s) = SOk s0 (r0 ++ s)) by (apply IH; [cbn [length] in *; lia | exact E]);
+      cbn [app] in X; rewrite X; reflexivity
+  end.
+
+Lemma lex_str_ext n : forall q b r s, (length q <= n)%nat -> lex_str q = SOk b r ->
+  lex_str (q ++ s) = SOk b (r ++ s).
+Proof.
+  induction n as [|n IH]; intros q b r s L H.
+  - destruct q; [discriminate H | cbn in L; lia].
+  - destruct q as [|c q]; [discriminate H|].
+    cbn [app lex_str] in H |- *. cbn [length] in L.
+    repeat (lex_step IH s).
+Qed.
+
+Lemma lex_frac_nil iv : lex_frac iv [] = inl (false, iv, 0, []).
+Proof. reflexivity. Qed.
+Lemma lex_exp_nil : lex_exp [] = inl (false, 0, []).
+Proof. reflexivity. Qed.
+
+Lemma classify_rest neg isd m fc ex b4 e r : classify neg isd m fc ex b4 = POk e r -> r = b4.
+Proof.
+  unfold classify. intros H.
+  repeat match type of H with
+         | context [if ?b then _ else _] => destruct b
+         | context [match real_of ?n ?mm ?ee with _ => _ end] => destruct (real_of n mm ee)
+         end; try discriminate; injection H as <- <-; reflexivity.
+Qed.
+
+Lemma classify_ext neg isd m fc ex b4 e r s : classify neg isd m fc ex b4 = POk e r ->
+  classify neg isd m fc ex (b4 ++ s) = POk e (r ++ s).
+Proof.
+  unfold classify. intros H.
+  repeat match type of H with
+         | context [if ?b then _ else _] => destruct b
+         | context [match real_of ?n ?mm ?ee with _ => _ end] => destruct (real_of n mm ee)
+         end; try discriminate; injection H as <- <-; reflexivity.
+Qed.
+
+Lemma lex_exp_ext b3 isd ex b4 s : lex_exp b3 = inl (isd, ex, b4) -> b4 <> [] ->
+  lex_exp (b3 ++ s) = inl (isd, ex, b4 ++ s).
+Proof.
+  intros H Hne. destruct b3 as [|x r3]; [cbn in H; injection H as <- <- <-; congruence|].
+  cbn [lex_exp app] in *. destruct ((x =? 101) || (x =? 69)); [|injection H as <- <- <-; reflexivity].
+  destruct r3 as [|s0 r]; [cbn in H; discriminate|]. cbn [app].
+  destruct (s0 =? 43).
+  - destruct (read_digits r 0 0) as [[xv xc] r5] eqn:R. destruct (xc =? 0) eqn:Ex; [discriminate|].
+    injection H as <- <- <-. rewrite (read_digits_ext _ _ _ _ _ _ s R Hne). rewrite Ex. reflexivity.
+  - destruct (s0 =? 45).
+    + destruct (read_digits r 0 0) as [[xv xc] r5] eqn:R. destruct (xc =? 0) eqn:Ex; [discriminate|].
+      injection H as <- <- <-. rewrite (read_digits_ext _ _ _ _ _ _ s R Hne). rewrite Ex. reflexivity.
+    + destruct (read_digits (s0 :: r) 0 0) as [[xv xc] r5] eqn:R. destruct (xc =? 0) eqn:Ex; [discriminate|].
+      injection H as <- <- <-.
+      pose proof (read_digits_ext _ _ _ _ _ _ s R Hne) as R'. cbn [app] in R'. rewrite R'. rewrite Ex. reflexivity.
+Qed.
+
+Lemma lex_frac_ext iv b2 isd m fc b3 s : lex_frac iv b2 = inl (isd, m, fc, b3) -> b3 <> [] ->
+  lex_frac iv (b2 ++ s) = inl (isd, m, fc, b3 ++ s).
+Proof.
+  intros H Hne. destruct b2 as [|d r2]; [cbn in H; injection H as <- <- <- <-; congruence|].
+  cbn [lex_frac app] in *. destruct (d =? 46); [|injection H as <- <- <- <-; reflexivity].
+  destruct (read_digits r2 0 0) as [[fv fc0] r3] eqn:R. destruct (fc0 =? 0) eqn:Ef; [discriminate|].
+  injection H as <- <- <- <-. rewrite (read_digits_ext _ _ _ _ _ _ s R Hne). rewrite Ef. reflexivity.
+Qed.
+
+Lemma lex_ipart_ext b1 iv b2 s : lex_ipart b1 = Some (iv, b2) -> b2 <> [] ->
+  lex_ipart (b1 ++ s) = Some (iv, b2 ++ s).
+Proof.
+  intros H Hne. destruct b1 as [|c r1]; [discriminate|]. cbn [lex_ipart app] in *.
+  destruct (c =? 48); [injection H as <- <-; reflexivity|].
+  destruct ((49 <=? c) && (c <=? 57)); [|discriminate].
+  destruct (read_digits (c :: r1) 0 0) as [[v n] r] eqn:R. injection H as <- <-.
+  pose proof (read_digits_ext _ _ _ _ _ _ s R Hne) as R'. cbn [app] in R'. rewrite R'. reflexivity.
+Qed.
+
+(** a number token that ended before the end of the input is unchanged by appending more input *)
+Lemma lex_number_ext q e r s : lex_number q = POk e r -> r <> [] -> lex_number (q ++ s) = POk e (r ++ s).
+Proof.
+  unfold lex_number. intros H Hne.
+  assert (SM : strip_minus (q ++ s) = (fst (strip_minus q), snd (strip_minus q) ++ s) \/ snd (strip_minus q) = []).
+  { destruct q as [|c q1]; [right; reflexivity|]. left. cbn [strip_minus app]. destruct (c =? 45); reflexivity. }
+  destruct (strip_minus q) as [neg b1] eqn:Es. cbn [fst snd] in SM.
+  destruct (lex_ipart b1) as [[iv b2]|] eqn:Ei; [|discriminate].
+  destruct (lex_frac iv b2) as [[[[isd1 m] fc] b3]|stop] eqn:Ef; [|discriminate].
+  destruct (lex_exp b3) as [[[isd2 ex] b4]|stop] eqn:Ee; [|discriminate].
+  pose proof (classify_rest _ _ _ _ _ _ _ _ H) as ->.
+  assert (N3 : b3 <> []) by (intros ->; rewrite lex_exp_nil in Ee; injection Ee as <- <- <-; congruence).
+  assert (N2 : b2 <> []) by (intros ->; rewrite lex_frac_nil in Ef; injection Ef as <- <- <- <-; congruence).
+  destruct SM as [SM | ->]; [|discriminate].
+  rewrite SM. rewrite (lex_ipart_ext _ _ _ s Ei N2). rewrite (lex_frac_ext _ _ _ _ _ _ s Ef N3).
+  rewrite (lex_exp_ext _ _ _ _ s Ee Hne). apply classify_ext. exact H.
+Qed.
+
+Definition is_container (q : list Z) : Prop :=
+  match q with c :: _ => c = 91 \/ c = 123 | [] => False end.
+
+Lemma parse_value_nil f e r : parse_value f [] = POk e r -> False.
+Proof. destruct f; discriminate. Qed.
+
+Lemma parse_elems_nil f e r : parse_elems f [] = POk e r -> False.
+Proof. destruct f as [|f]; [discriminate|]. cbn [parse_elems]. destruct f; discriminate. Qed.
+
+Lemma parse_members_nil f e r : parse_members f [] = POk e r -> False.
+Proof. destruct f; discriminate. Qed.
+
+Lemma pmap_ok g x e r : pmap g x = POk e r -> exists e0, x = POk e0 r /\ e = g e0.
+Proof. destruct x; cbn; intros H; try discriminate. injection H as <- <-. eauto. Qed.
+
+Lemma skip_ws_cons_ext q c t s : skip_ws q = c :: t -> skip_ws (q ++ s) = c :: t ++ s.
+Proof. intros H. rewrite skip_ws_ext by (rewrite H; discriminate). rewrite H. reflexivity. Qed.
+
+(** a successful parse is unchanged by more fuel and by more input, provided the value did not end
+    exactly at the end of the input as a bare number/literal *)
+Lemma parse_ext f :
+  (forall q e r, parse_value f q = POk e r -> (r <> [] \/ is_container q) ->
+     forall f' s, (f <= f')%nat -> parse_value f' (q ++ s) = POk e (r ++ s)) /\
+  (forall q e r, parse_elems f q = POk e r ->
+     forall f' s, (f <= f')%nat -> parse_elems f' (q ++ s) = POk e (r ++ s)) /\
+  (forall q e r, parse_members f q = POk e r ->
+     forall f' s, (f <= f')%nat -> parse_members f' (q ++ s) = POk e (r ++ s)).
+Proof.
+  induction f as [|f (IHv & IHe & IHm)]; [repeat split; intros; discriminate|].
+  split; [|split].
+  - (* value *)
+    intros q e r H Hc [|f'] s Lf; [lia|]. destruct q as [|c q1]; [discriminate H|].
+    cbn [parse_value app] in H |- *.
+    destruct (c =? 110); [apply lit_ext; exact H|].
+    destruct (c =? 116); [apply lit_ext; exact H|].
+    destruct (c =? 102); [apply lit_ext; exact H|].
+    destruct (c =? 34).
+    { destruct (lex_str q1) as [s0 r'|] eqn:El; [|discriminate]. injection H as <- <-.
+      rewrite (lex_str_ext (length q1) q1 s0 r' s (le_n _) El). reflexivity. }
+    destruct (c =? 91) eqn:E91.
+    { destruct (skip_ws q1) as [|d r2] eqn:Es; [discriminate|].
+      rewrite (skip_ws_cons_ext _ _ _ s Es). destruct (d =? 93); [injection H as <- <-; reflexivity|].
+      apply pmap_ok in H. destruct H as (e0 & Hp & ->).
+      change (d :: r2 ++ s) with ((d :: r2) ++ s). rewrite (IHe _ _ _ Hp f' s ltac:(lia)). reflexivity. }
+    destruct (c =? 123) eqn:E123.
+    { destruct (skip_ws q1) as [|d r2] eqn:Es; [discriminate|].
+      rewrite (skip_ws_cons_ext _ _ _ s Es). destruct (d =? 125); [injection H as <- <-; reflexivity|].
+      apply pmap_ok in H. destruct H as (e0 & Hp & ->).
+      change (d :: r2 ++ s) with ((d :: r2) ++ s). rewrite (IHm _ _ _ Hp f' s ltac:(lia)). reflexivity. }
+    change (c :: q1 ++ s) with ((c :: q1) ++ s). apply lex_number_ext; [exact H|].
+    destruct Hc as [Hc | Hc]; [exact Hc | cbn in Hc; lia].
+  - (* elements *)
+    intros q e r H [|f'] s Lf; [lia|]. cbn [parse_elems] in H |- *.
+    destruct (parse_value f q) as [e0 r0| |] eqn:Ev; try discriminate.
+    destruct (skip_ws r0) as [|c r2] eqn:Es; [discriminate|].
+    assert (N0 : r0 <> []) by (intros ->; discriminate Es).
+    rewrite (IHv _ _ _ Ev (or_introl N0) f' s ltac:(lia)).
+    rewrite (skip_ws_cons_ext _ _ _ s Es).
+    destruct (c =? 44).
+    { apply pmap_ok in H. destruct H as (e1 & Hp & ->).
+      destruct (skip_ws r2) as [|d r3] eqn:Es2; [exfalso; eapply parse_elems_nil; exact Hp|].
+      rewrite (skip_ws_cons_ext _ _ _ s Es2). change (d :: r3 ++ s) with ((d :: r3) ++ s).
+      rewrite (IHe _ _ _ Hp f' s ltac:(lia)). reflexivity. }
+    destruct (c =? 93); [injection H as <- <-; reflexivity | discriminate].
+  - (* members *)
+    intros q e r H [|f'] s Lf; [lia|]. cbn [parse_members] in H |- *.
+    destruct q as [|c q1]; [discriminate|]. cbn [app].
+    destruct (c =? 34); [|discriminate].
+    destruct (lex_str q1) as [k r'|] eqn:El; [|discriminate].
+    rewrite (lex_str_ext (length q1) q1 k r' s (le_n _) El).
+    destruct (skip_ws r') as [|d r2] eqn:Es; [discriminate|].
+    rewrite (skip_ws_cons_ext _ _ _ s Es).
+    destruct (d =? 58); [|discriminate].
+    destruct (parse_value f (skip_ws r2)) as [e0 r3| |] eqn:Ev; try discriminate.
+    destruct (skip_ws r2) as [|d2 r2'] eqn:Es2; [exfalso; eapply parse_value_nil; exact Ev|].
+    rewrite (skip_ws_cons_ext _ _ _ s Es2).
+    destruct (skip_ws r3) as [|x r5] eqn:Es3; [discriminate|].
+    assert (N3 : r3 <> []) by (intros ->; discriminate Es3).
+    change (d2 :: r2' ++ s) with ((d2 :: r2') ++ s).
+    rewrite (IHv _ _ _ Ev (or_introl N3) f' s ltac:(lia)).
+    rewrite (skip_ws_cons_ext _ _ _ s Es3).
+    destruct (x =? 44).
+    { apply pmap_ok in H. destruct H as (e1 & Hp & ->).
+      destruct (skip_ws r5) as [|d3 r6] eqn:Es4; [exfalso; eapply parse_members_nil; exact Hp|].
+      rewrite (skip_ws_cons_ext _ _ _ s Es4). change (d3 :: r6 ++ s) with ((d3 :: r6) ++ s).
+      rewrite (IHm _ _ _ Hp f' s ltac:(lia)). reflexivity. }
+    destruct (x =? 125); [injection H as <- <-; reflexivity | discriminate].
+Qed.
+
+(** (e) no strict prefix of the rendering of an array or object parses *)
+Theorem truncation_lemma evs p s : wf evs = true -> printable evs = true ->
+  (exists t, evs = ESA :: t \/ evs = ESO :: t) ->
+  render evs = p ++ s -> s <> [] -> forall res, parse p <> Ok res.
+Proof.
+  intros W P (t & Ht) Hr Hs res Hp. apply wf_iff in W.
+  pose proof (parse1_render [] evs [] W P (Forall_nil _) I) as Full.
+  cbn [app] in Full. rewrite app_nil_r in Full.
+  unfold parse in Hp. destruct (parse1 p) as [e r| |] eqn:Ep; try discriminate. clear Hp.
+  unfold parse1 in *.
+  assert (Hhead : exists b t', render evs = b :: t' /\ (b = 91 \/ b = 123)).
+  { destruct Ht as [-> | ->]; cbn [render render_from sep tok app]; eauto. }
+  destruct Hhead as (b & t' & Eb & Hb).
+  destruct p as [|c p'].
+  - cbn in Ep. discriminate.
+  - rewrite Hr in Eb. cbn [app] in Eb. injection Eb as -> _.
+    assert (Hws : is_ws b = false) by (unfold is_ws; lia).
+    rewrite skip_ws_start in Ep by exact Hws.
+    pose proof (proj1 (parse_ext _) _ _ _ Ep (or_intror (Hb : is_container (b :: p'))) (fuel_for (render evs)) s) as X.
+    rewrite <- Hr in X. rewrite Hr in Full at 2. cbn [app] in Full.
+    rewrite skip_ws_start in Full by exact Hws. change (b :: p' ++ s) with ((b :: p') ++ s) in Full.
+    rewrite <- Hr in Full. rewrite X in Full.
+    + injection Full as _ Hnil. destruct r; destruct s; try discriminate; congruence.
+    + unfold fuel_for. rewrite Hr, app_length. lia.
+Qed.
+
+(* every strict prefix of the rendering of [ex_events] is rejected (instance of the theorem, by computation) *)
+Example truncation_ex :
+  forallb (fun k => match parse (firstn k (render ex_events)) with Ok _ => false | Err _ => true end)
+          (seq 0 (length (render ex_events))) = true.
+Proof. vm_compute. reflexivity. Qed.
+
+(* ================================================================== to_json then from_json, at the event level *)
+(** the text produced for an array is read back as exactly one document carrying the same events
+    (after Handler's substitutions), whenever its leaves are printable *)
+Theorem roundtrip_events_lemma o c evs : tojson_events o c = Ok evs -> printable evs = true ->
+  do_parse o (render evs) = JDocs [map (handler o) evs] /\
+  unwrap [map (handler o) evs] = One (map (handler o) evs).
+Proof.
+  intros H P. split; [|reflexivity].
+  pose proof (concat_docs_lemma o [] [(evs, [])]) as X. unfold docs_text, doc_text in X.
+  cbn [map concat fst snd app] in X. rewrite !app_nil_r in X. apply X.
+  - constructor.
+  - constructor; [|constructor]. split; [eapply events_wellformed_strong; exact H|]. split; [exact P | constructor].
+  - cbn. auto.
+Qed.
